@@ -35,6 +35,8 @@ type uciParams struct {
 	Oracle  string            `json:"oracle"` // c04 | c16
 	Since   bool              `json:"since,omitempty"`
 	Seed    int64             `json:"seed,omitempty"`
+	Slow    int               `json:"slow,omitempty"`  // creation index of an engine goroutine that is held back (0 = none)
+	Until   int               `json:"until,omitempty"` // ... until this many steps after the release instant
 }
 
 const startFEN = "rnbqkbnr/pppppppp/8/8/8/8/PPPPPPPP/RNBQKBNR w KQkq - 0 1"
@@ -154,7 +156,7 @@ func buildUCI(params json.RawMessage) explore.Scenario {
 	if p.Horizon == 0 {
 		p.Horizon = 1500
 	}
-	return explore.Scenario{Horizon: p.Horizon, EnvSince: p.Since, TimerRelease: p.Timer, Build: func() (func(), func(int), func(*vs.Sched) explore.Outcome) {
+	return explore.Scenario{Horizon: p.Horizon, EnvSince: p.Since, TimerRelease: p.Timer, DelayThread: p.Slow, DelayUntil: p.Release + p.Until, Build: func() (func(), func(int), func(*vs.Sched) explore.Outcome) {
 		r := &uciRun{p: p}
 		main := func() {
 			ctx := context.Background()
